@@ -454,7 +454,9 @@ func genC07(t *rapid.T) *C07Case {
 		lines = append(lines, "SecRule ARGS|REQUEST_HEADERS \"@rx .\" \"id:9400,phase:2,pass,nolog,tag:'dyn',msg:'dynmsg'\"")
 		if rapid.Bool().Draw(t, "auditfacet") {
 			// every transaction is audited; the log target or the storage directory may be unusable
-			lines = append(lines, "SecAuditEngine On", "SecAuditLogParts ABCFHKZ",
+			lines = append(lines, "SecAuditEngine On",
+				// any order of the parts the directive accepts, not only the canonical one
+				"SecAuditLogParts "+rapid.SampledFrom([]string{"ABCFHKZ", "ABKHZ", "AKBHZ", "ABHZ", "ABKZ", "AHKBZ", "ABCDEFGHIJKZ", "AZ"}).Draw(t, "facetparts"),
 				"SecAuditLogType "+rapid.SampledFrom([]string{"Concurrent", "Concurrent", "Serial"}).Draw(t, "audittype"),
 				"SecAuditLogFormat "+rapid.SampledFrom([]string{"JSON", "Native"}).Draw(t, "auditformat"),
 				"SecAuditLog "+rapid.SampledFrom([]string{c07Data + "/audit/audit.log", "/dev/full", c07Data + "/words.data/audit.log"}).Draw(t, "facetlog"),
